@@ -61,18 +61,19 @@ variable (prog : Program)
 def evalRules : List Rule → EM Unit
   | [] => pure ()
   | rule :: rest => do
-    let isMatch ← (match rule.pattern with
-      | none => pure true
-      | some p => do
+    -- `some b` = truth value of the pattern; `none` = `next` was executed while evaluating it
+    let isMatch? ← (match rule.pattern with
+      | none => pure (some true)
+      | some p => catchSig .next none (do
         let c ← evalExpr prog evalFuel p
-        return (← readCell c).truthy : EM Bool)
-    if !isMatch then evalRules rest else
-    fun s =>
-      match evalStmt prog evalFuel rule.body s with
-      | .ok () s' => evalRules rest s'
-      | .err (.sig .next) s' => .ok () s'
-      | .err e s' => .err e s'
-      | .oof => .oof
+        return some (← readCell c).truthy) : EM (Option Bool))
+    match isMatch? with
+    | none => pure ()
+    | some isMatch =>
+      if !isMatch then evalRules rest else
+      -- `next` abandons the remaining rules for this element
+      let more ← catchSig .next false (do evalStmt prog evalFuel rule.body; pure true)
+      if more then evalRules rest else pure ()
 
 /-- the per-element loop of `evalPatternRules` over the cells captured at entry -/
 def evalElems (rules : List Rule) : List CellId → Nat → EM Unit
